@@ -149,7 +149,7 @@ pub fn explore(ctx: &Ctx) {
     ctx.assume("conventional calculation = ExtremeLatitudeMethod::None, unrounded seconds");
     let all = d_all();
     let lats = [0.0, 15.0, -15.0, 30.0, -30.0, 40.0, -40.0, 48.0, -48.0, 55.0, -55.0, 60.0, -60.0];
-    let zs: Vec<(f64, f64)> = if quick { vec![(-77.2086, -5.0), (39.8233, 3.0), (151.2, 10.0), (0.0, 4.0), (-180.0, -8.0)] } else { zones(30.0, &[-4.0, -1.0, 0.0, 2.0, 4.0, 6.0]) };
+    let zs: Vec<(f64, f64)> = if quick { vec![(-77.2086, -5.0), (39.8233, 3.0), (151.2, 10.0), (0.0, 4.0), (-180.0, -8.0)] } else { vec![(-180.0, -12.0), (-180.0, -8.0), (-120.0, -8.0), (-77.2086, -5.0), (-30.0, -6.0), (0.0, 0.0), (0.0, 4.0), (39.8233, 3.0), (82.5, 5.5), (120.0, 4.0), (151.2, 10.0), (180.0, 12.0)] };
     let mut jobs = vec![];
     let mut n = 0;
     for &lat in &lats {
